@@ -92,6 +92,11 @@ func progOf(kind string, l, src int, noop bool) []cinstr {
 			{k: iRLock, l: src}, acc, {k: iRUnlock, l: src}, hk("join.heads-read"),
 			{k: iRLock, l: src}, acc, {k: iRUnlock, l: src}, hk("join.entries-read"),
 			{k: iLock, l: l}, hk("join.locked"), hk("join.publish"), acc, {k: iUnlock, l: l}}
+	case "joinr": // a merge that is refused: the error return comes before the publish point
+		return []cinstr{hk("op.start"), hk("join.enter"),
+			{k: iRLock, l: src}, acc, {k: iRUnlock, l: src}, hk("join.heads-read"),
+			{k: iRLock, l: src}, acc, {k: iRUnlock, l: src}, hk("join.entries-read"),
+			{k: iLock, l: l}, hk("join.locked"), acc, {k: iUnlock, l: l}}
 	case "setid":
 		return []cinstr{hk("op.start"), {k: iLock, l: l}, acc, {k: iUnlock, l: l}}
 	case "iter":
@@ -376,7 +381,7 @@ func (c *cctl) runOp(o *cop) {
 			w.concEntries[o.tid] = e
 			w.concMu.Unlock()
 		}
-	case "join":
+	case "join", "joinr":
 		_, err := l.Join(c.logs[o.src], o.arg)
 		if err != nil {
 			o.result = pre + "err"
@@ -672,11 +677,17 @@ type decision struct {
 
 func (w *cworld) concCase(h int, kind string, thorough bool, enum bool, script []int) []decision {
 	r := w.r
-	nLogs := map[string]int{"aar": 1, "ja": 2, "cross": 2, "cycle3": 3, "jtrim": 3}[strings.TrimPrefix(kind, "e-")]
+	nLogs := map[string]int{"aar": 1, "ja": 2, "cross": 2, "cycle3": 3, "jtrim": 3, "jdeny": 2}[strings.TrimPrefix(kind, "e-")]
 	var logs []*ipfslog.IPFSLog
 	for i := 0; i < nLogs; i++ {
 		ident := w.ids.Identity(fmt.Sprintf("w%d", i))
-		l, err := ipfslog.NewLog(w.api, ident, &ipfslog.LogOptions{ID: "X"})
+		lo := &ipfslog.LogOptions{ID: "X"}
+		if kind == "jdeny" && i == 0 {
+			// log 0 refuses everything the writer of log 1 signed; few verification slots
+			lo.AccessController = &denyAC{denied: map[string]bool{hexs(w.ids.Identity("w1").PublicKey): true}}
+			lo.Concurrency = []uint{0, 1, 2, 3, 16}[r.Intn(5)]
+		}
+		l, err := ipfslog.NewLog(w.api, ident, lo)
 		if err != nil {
 			panic(err)
 		}
@@ -696,6 +707,13 @@ func (w *cworld) concCase(h int, kind string, thorough bool, enum bool, script [
 			add("append", i, -1, pcs[r.Intn(len(pcs))], true)
 		}
 	}
+	if kind == "jdeny" {
+		// the refused log holds more entries than there are verification slots
+		for k := 17 + r.Intn(6); k > 0; k-- {
+			add("append", 1, -1, 1, true)
+		}
+		add("append", 0, -1, 1, true)
+	}
 	if kind == "jtrim" {
 		// the source of the observed merge (log 1) and the log it is about to be trimmed against (log 2)
 		// both hold something
@@ -708,7 +726,7 @@ func (w *cworld) concCase(h int, kind string, thorough bool, enum bool, script [
 		for i := 0; i < nLogs; i++ {
 			add("append", i, -1, 1, true)
 		}
-	} else if nLogs > 1 && r.Intn(2) == 0 {
+	} else if nLogs > 1 && kind != "jdeny" && r.Intn(2) == 0 {
 		a := r.Intn(nLogs)
 		add("join", a, (a+1)%nLogs, -1, true)
 		if r.Intn(2) == 0 {
@@ -781,6 +799,15 @@ func (w *cworld) concCase(h int, kind string, thorough bool, enum bool, script [
 			add("append", o.log, -1, 1, false)
 		}
 		extraReaders(r.Intn(2))
+	case "jdeny":
+		// a refused merge holds the lock only as long as the refusal takes: readers and writers of the
+		// destination go on, the merge returns its error
+		add("joinr", 0, 1, -1, false)
+		add("append", 0, -1, 1, false)
+		if r.Intn(2) == 0 {
+			add("joinr", 0, 1, -1, false)
+		}
+		extraReaders(2 + r.Intn(2))
 	case "jtrim":
 		// a merge from a log that is being size-bounded (trimmed) by another merge at the same time:
 		// between the two reads of the source its head may vanish from its entries
@@ -923,7 +950,7 @@ func noteOr(s string) string {
 func runConc(seed int64, n int, out *bufio.Writer, thorough bool) *concStats {
 	st := &concStats{Scenarios: map[string]int{}, OpKinds: map[string]int{}, PreemptHist: map[string]int{},
 		ThreadsHist: map[string]int{}, seen: map[string]bool{}, EnumByScenario: map[string]int{}}
-	kinds := []string{"aar", "ja", "cross", "cycle3", "jtrim"}
+	kinds := []string{"aar", "ja", "cross", "cycle3", "jtrim", "jdeny"}
 	for h := 0; h < n; h++ {
 		if skipCase(h) {
 			continue
